@@ -12,7 +12,7 @@ def pAnyDeclarator (self : Self) (allowAbstract typeidParenAsAbstract : Bool) : 
     if !allowAbstract then
       match ← peek with
       | some tok => parseError "Invalid declarator" (.coord (← tokCoord tok))
-      | none => parseError "Invalid declarator" (.text (← lexFilename))
+      | none => parseError "Invalid declarator" (← lexFileLoc)
     else
       let d ← self .abstractDeclaratorOpt
       pure (d, false)
@@ -280,7 +280,7 @@ def pDirectAbstractDeclarator (self : Self) : P Val := do
         if d.isNone then crash .assertion "decl is not None" else pure d
     | none =>
       if (← peekType) == some "LBRACKET" then self (.arrayDeclCommon emptyTypeDecl none)
-      else parseError "Invalid abstract declarator" (.text (← lexFilename)))
+      else parseError "Invalid abstract declarator" (← lexFileLoc))
   self (.declSuffixesLoop decl)
 
 end PycModel
